@@ -12,7 +12,8 @@ from .. import runcheck, monitors, swrap, problems
 from ..common import model_exe, canon_nan
 
 GLUE_ALGS = {"NLOPT_LN_COBYLA": 102, "NLOPT_LN_BOBYQA": 103, "NLOPT_LN_NEWUOA_BOUND": 104, "NLOPT_LN_NEWUOA": 105, "NLOPT_LN_PRAXIS": 101,
-             "NLOPT_GN_DIRECT": 107, "NLOPT_GN_DIRECT_L": 107, "NLOPT_GN_DIRECT_L_RAND": 107}
+             "NLOPT_GN_DIRECT": 107, "NLOPT_GN_DIRECT_L": 107, "NLOPT_GN_DIRECT_L_RAND": 107,
+             "NLOPT_GN_ORIG_DIRECT": 108, "NLOPT_GN_ORIG_DIRECT_L": 108}
 
 
 def glue_correspondence(ctx, batch):
